@@ -234,7 +234,9 @@ def handleDestr (what : String) (args : List String) : Option (String × String)
 
 def handle (pfx : String) (fn : String) (args : List String) : Option (String × String) :=
   match pfx with
-  | "cons" => if fn = "hist" then handleCons args else none
+  -- `cons.zhist`: zero-sized elements are observed as counts; the model's ledger is by element id, so these rows
+  -- are implementation vs std only (`?` = no model answer)
+  | "cons" => if fn = "hist" then handleCons args else if fn = "zhist" then some ("?", "?") else none
   | "led" => handleLed fn args
   | "destr" => handleDestr fn args
   | _ => none
